@@ -98,7 +98,16 @@ ssize_t io::buffer::write(size_t nblk, const void *from, size_t esze)
 	size_t left = nblk;
 	while (nblk) {
 		bool wait = _state.scratch;
-		if (!push(esze, from)) {
+		/* failed and partial push are no written block */
+		size_t off = 0;
+		while (off < esze) {
+			ssize_t curr = push(esze - off, static_cast<const uint8_t *>(from) + off);
+			if (curr <= 0) {
+				break;
+			}
+			off += curr;
+		}
+		if (off < esze) {
 			break;
 		}
 		if (!wait && !_enc) push(0, 0);
